@@ -596,3 +596,32 @@ def forced_full_pipe(mw=1, cap=1024, n=3, size=700, broken=False):
     else:
         ops += [["shutdown", True, True]]
     return P(f"forced-full-pipe-w{mw}-b{broken}", pool(max_workers=mw, pipe_cap=cap), ops)
+
+
+def unsendable_one_by_one(n=2, mw=1):
+    """Tasks that fail to pickle, each awaited before the next is submitted (every wake-up of the
+    manager has a single cause and nothing else in flight), then a healthy task."""
+    ops = [NEW]
+    for i in range(n):
+        ops += [sub(f"x{i}", "bad_arg"), ["result", f"x{i}"]]
+    ops += [sub("z", "ok", 9), ["result", "z"], ["probe"], shutdown(True)]
+    return P(f"unsendable-one-by-one{n}-w{mw}", pool(max_workers=mw), ops)
+
+
+def cancel_then_work(mw=1):
+    """A future cancelled before dispatch (its wake-up has no inter-process follow-up), the
+    running task awaited, then ordinary work."""
+    return P(f"cancel-then-work-w{mw}", pool(max_workers=mw),
+             [NEW, sub("g", "gate")] + [sub(f"q{i}", "ok", i) for i in range(2 * mw + 2)]
+             + [["cancel", f"q{2 * mw + 1}"], ["release", "g"], WAIT, sub("z", "ok", 9), ["result", "z"],
+                ["probe"], shutdown(True)])
+
+
+def reuse_true_after_drain(mw=3, timeout=0.05):
+    """'Give me the same executor, unchanged' (reuse=True, no max_workers) asked while some
+    workers may have left on idle timeout: the executor still runs mw tasks at once."""
+    keys = [f"g{i}" for i in range(mw)]
+    ops = [NEW] + [sub(f"a{i}", "ok", i) for i in range(mw)] + [WAIT, ["reuse", dict(reuse=True)]]
+    ops += [sub(k, "gate") for k in keys] + [["expect_inside", mw]]
+    ops += [["release", k] for k in keys] + [WAIT, shutdown(True)]
+    return P(f"reuse-true-after-drain-w{mw}-t{timeout}", pool("reusable", mw, timeout), ops)
